@@ -230,6 +230,18 @@ TWINS = [
     ('pow-negative-transpose', 'C02', 'super_pose.py', "        return self.__class__([np.linalg.matrix_power(x, n) for x in self.data], check=False)", "        if n < 0:\n            return self.__class__([np.linalg.matrix_power(x.T, -n) for x in self.data], check=False)\n        return self.__class__([np.linalg.matrix_power(x, n) for x in self.data], check=False)", 'R15c', 'SMPose.__pow__'),
     ('so-seq-matrix-einsum-transposed', 'C06', 'super_pose.py', 'return np.array([x.A @ y for x, y in zip(left, right.T)]).T', "return np.einsum('kij,ik->jk', np.array(left.A), right)", 'R16', 'SMPose.__mul__'),
     ('twist3-exp-vector-theta-no-units', 'C09', 'twist.py', "        else:\n            theta = base.getunit(theta, units)\n\n        if base.isscalar(theta):\n            # theta is a scalar", "        elif base.isscalar(theta):\n            theta = base.getunit(theta, units)\n        else:\n            theta = base.getvector(theta)\n\n        if base.isscalar(theta):\n            # theta is a scalar", 'R10u', 'Twist3.exp'),
+    # ---- round f
+    ('trlog-halfturn-guard-never-true', 'C02', 'base/transforms3d.py', 'elif abs(np.trace(R) + 1) < 100 * _eps:', 'elif abs(np.trace(R)) + 1 < 100 * _eps:', 'R19', 'trlog'),
+    ('trlog-halfturn-guard-dropped', 'C03', 'base/transforms3d.py', 'elif abs(np.trace(R) + 1) < 100 * _eps:', 'elif False:', 'R19', 'trlog'),
+    ('uq-angvec-raw-axis', 'C05', 'quaternion.py', 'v=math.sin(theta / 2) * u, norm=False, check=False)', 'v=math.sin(theta / 2) * v, norm=False, check=False)', 'R15c', 'AngVec'),
+    ('uq-ne-not-outside', 'C09', 'quaternion.py', 'return left.binop(right, lambda x, y: not base.isequal(x, y, unitq=True), list1=False)', 'return not left.binop(right, lambda x, y: base.isequal(x, y, unitq=True), list1=False)', 'R8h', 'UnitQuaternion.__ne__'),
+    ('uq-eq-all', 'C09', 'quaternion.py', 'return left.binop(right, lambda x, y: base.isequal(x, y, unitq=True), list1=False)', 'return all(left.binop(right, lambda x, y: base.isequal(x, y, unitq=True), list1=True))', 'R8h', 'UnitQuaternion.__eq__'),
+    ('qexp-guard-on-result', 'C12', 'quaternion.py', '        if abs(self.s) < 100 * _eps:\n            # result will be a unit quaternion', '        if abs(s) < 100 * _eps:\n            # result will be a unit quaternion', 'R16', 'Quaternion.exp'),
+    ('qexp-cos-sin-swapped', 'C12', 'quaternion.py', 's = exp_s * math.cos(norm_v)', 's = exp_s * math.sin(norm_v)', 'R16', 'Quaternion.exp'),
+    ('qlog-asin', 'C12', 'quaternion.py', 'v = math.acos(self.s / norm) * base.unitvec(self.v)', 'v = math.asin(self.s / norm) * base.unitvec(self.v)', 'R16', 'Quaternion.log'),
+    ('so3-eul-branch-drops-unit', 'C15', 'pose3d.py', 'return np.array([base.tr2eul(x, unit=unit, flip=flip) for x in self.A])', 'return np.array([base.tr2eul(x, flip=flip) for x in self.A])', 'R8', 'SO3.eul'),
+    ('twist2-exp-falsy-theta', 'C18', 'twist.py', "        if theta is None:\n            theta = 1\n        else:\n            theta = base.getunit(theta, units)\n\n        if base.isscalar(theta):\n            return SE2(", "        if not theta:\n            theta = 1\n        else:\n            theta = base.getunit(theta, units)\n\n        if base.isscalar(theta):\n            return SE2(", 'R10n', 'Twist2.exp'),
+    ('adjoint-block-order', 'C20', 'base/transforms3d.py', '[R, base.skew(t) @ R]', '[R, R @ base.skew(t)]', 'R16', 'adjoint'),
     ('distance-antiparallel', 'C19', 'geom3d.py', 'l1.v - l2.v * np.dot(l1.w, l2.w) / np.dot(l2.w, l2.w)', 'l1.v - l2.v * np.linalg.norm(l1.w) / np.linalg.norm(l2.w)', 'R23', 'distance'),
 ]
 
